@@ -1163,6 +1163,14 @@ func (c *SpecCtx) call(e *Expr, pos bool) *Term {
 		x.reg.SeqSort("Ev")
 		v := arg(0)
 		return App("Ev", "ev", IntLit(evClear), App("Int", "ival", v), IntLit(1), mk("Str", "sempty"))
+	case "evEnv":
+		x.reg.SeqSort("Ev")
+		return App("Ev", "ev", IntLit(evEnv), IntLit(0), IntLit(0), arg(0))
+	case "evMeth":
+		// evMeth(v, "Method"): a logged call of another protocol method on v
+		x.reg.SeqSort("Ev")
+		v := arg(0)
+		return App("Ev", "ev", IntLit(evMeth), App("Int", "ival", v), IntLit(1), x.reg.StrLit(strArg(1)))
 	case "tr_prefix":
 		x.reg.SeqSort("Ev")
 		return App("Bool", "tr_prefix", arg(0), arg(1))
